@@ -106,7 +106,7 @@ def run(chk):
                         "divergences that are not about generated values (C05/C06/C09 territory) are counted in the evidence and adopted, not reported here"]
     vlib.build_harness(); chk.mark("build")
     # (1) the reference checked against itself, all admissible generated values
-    mc = vlib.run_tlc("MC_AutoInc.tla", reldl.cfg_with("MC_AutoInc.cfg", {"MaxOps": 4 if thorough else 3}, "mc"), workers=8, timeout=2400)
+    mc = vlib.run_tlc("MC_AutoInc.tla", reldl.cfg_with("MC_AutoInc.cfg", {"MaxOps": 4, "MaxId": 4} if thorough else {"MaxOps": 3}, "mc"), workers=8, timeout=2400)
     vlib.tlc_ok(mc, "MC_AutoInc")
     if mc["violated"]:
         raise vlib.ToolError("AutoInc.tla violates its own meta-invariant %s" % mc["violated"])
